@@ -760,7 +760,8 @@ PROPS["C13"] = {
     "theorems": ["C13_flags_allowed", "C13_dynamic_keys_full", "C13_need_patch", "C13_spread_sets_dynamic_keys",
                  "C13_transformOn_sets_dynamic_keys", "C13_plain_monotone", "C13_plain_cover", "C13_plain_cover_component",
                  "C13_props_bit", "C13_class_style_bits", "C13_slot_flag_range", "C13_stack_invariant_push",
-                 "C13_stack_invariant_fill", "C13_fill_marks_all", "attrStep_mono", "trAttrs_mono", "trAttrs_append", "C13_cover_whole_element", "C13_cover_whole_element_flag", "C13_computed_key_not_constant"],
+                 "C13_stack_invariant_fill", "C13_fill_marks_all", "attrStep_mono", "trAttrs_mono", "trAttrs_append", "C13_cover_whole_element", "C13_cover_whole_element_flag", "C13_computed_key_not_constant", "C13_cover_vhtml", "C13_cover_vtext", "C13_cover_vmodel", "vmodelStep_listener"],
+    "extra_modules": ["VueJsx.Props.C13b"],
     "cases": c13_cases,
     "explanation": "oracle: the clauses of the statement evaluated on every vnode call of the real output (flag is a union of element-level bits; without FULL_PROPS every non-constant prop except key/ref is covered by CLASS/STYLE on elements or by PROPS + the dynamic-prop list; spread/merged/computed-key props imply FULL_PROPS or no flag; the dynamic-prop list names present props only; ref/directive never with HYDRATE_EVENTS alone; `_` is 1 or 2, and 2 when a direct child - of that slot or of one reached by direct JSX nesting - is an identifier bound in the file; no hint without optimize)",
 }
